@@ -163,11 +163,34 @@ CHECKS = {
         "text": "Sequential: in every state reached by a history of <= d steps (flush is only enabled when it would not park) in which level 0 holds back ingest, running the compaction loop until idle must end the stall within 64 compactions; a state that is stalled with no selectable compaction is a deadlock witness (configuration + history). Concurrent: a writer, one flush-loop iteration that has to ingest into a level 0 at the stall threshold, and 1-2 real compaction loops (released by a stop request once writer and flush are through); loom reports any execution in which every thread is parked.",
         "note": "Deadlock-freedom inside the bounds, not fair termination; thresholds from the grid rows; one store open per loom execution limits the quick tier to preemption bound 1-2.",
     },
+    "C14": {
+        "level": "exploration",
+        "technique": "bounded-exhaustive input enumeration of the setsum laws against an independent SHA3-256 + modular arithmetic reference",
+        "design_ref": "DESIGN.md 3.4, 4 (C14)",
+        "jobs": {
+            "quick": [{"ws": "harness", "bin": "enum_setsum", "args": [], "timeout": 1800}],
+            "thorough": [{"ws": "harness", "bin": "enum_setsum", "args": [], "timeout": 7200}],
+        },
+        "text": "All multisets of size <= 4 (thorough 5) over six items (empty, prefix-sharing, 64-byte, 1 KiB), all insertion orders, all insert/remove sequences, every split of every item into <= 3 vectored pieces; all ordered pairs (and structured triples; all 415 M triples in the thorough tier) of 746 boundary digests per column value {0, 1, p-1, p, p+1, 2^32-1} built through from_digest / from_hexdigest, for setsum::Setsum and sst::Setsum: commutativity, associativity, union = sum, remove undoes insert, subtraction undoes addition, digest and hex round trips, and equality with a reference that implements Keccak-f[1600] itself (cross-checked once against python hashlib) and does the column arithmetic in u64 modulo the eight primes. Canonical operands: exact equality; non-canonical operands: congruence and no panic.",
+        "note": "Finite boundary-saturated domains, not all 2^256 digests. No alphabet item has a SHA3 word >= p, so the reduction inside hash_to_state is not exercised.",
+    },
+    "C16": {
+        "level": "exploration",
+        "technique": "bounded-exhaustive input enumeration: all pairs of boundary-saturated tuples per schema vs. native Ord, all short byte strings and single mutations into the parsers",
+        "design_ref": "DESIGN.md 3.4, 4 (C16)",
+        "jobs": {
+            "quick": [{"ws": "harness", "bin": "enum_tuple", "args": [], "timeout": 1800}],
+            "thorough": [{"ws": "harness", "bin": "enum_tuple", "args": [], "timeout": 7200}],
+        },
+        "text": "For tuple_key, tuple_key2 and tuple_key_derive: 3,503 schemas of <= 3 elements over {unit, u32, u64, i32, i64, string, bytes and narrower widths where supported}, ascending and (where the format has a marker) descending; all pairs of tuples over boundary domains (every byte-length and sign boundary of the variable-length integers; strings that are empty, contain 0x00 / 0xff, are prefixes of one another, U+00FF, U+10FFFF): byte order of encodings = element-wise order of tuples (reversed for descending), prefix-extension contiguity, decode(encode(t)) = t. Parsers: every byte string <= 3 and every truncation / 1-byte mutation of 10,915 valid keys: Ok or Err, never a panic (sweeps in child processes).",
+        "note": "Reference order is Rust's Ord on native values with std::cmp::Reverse. The descending-string prefix defect is recorded as a known finding (needs a format change).",
+    },
 }
 
 HOOK_COMMITS = ["78dca42", "83c0526", "7e7e701", "cedc0ca"]
 
 ENGINES = [
+    {"name": "enumc", "path": "harness/enumc", "serves_properties": ["C14", "C16"], "kind_free_text": "bounded-exhaustive input enumeration for setsum and the tuple-key crates against independent references"},
     {"name": "manimc", "path": "harness/manimc", "serves_properties": ["C13", "C18"], "kind_free_text": "bounded exhaustive operation sequences on the real Manifest, LRU cache and wait list against sequential references"},
     {"name": "codecmc", "path": "harness/codecmc", "serves_properties": ["C15"], "kind_free_text": "bounded-exhaustive input enumeration for buffertk/prototk against an independent wire codec"},
     {"name": "crashmc", "path": "harness/crashmc", "serves_properties": ["C02", "C04", "C08"],
